@@ -241,7 +241,7 @@ class Data(Attribute, ABC, Generic[DataElement]):
         would like to accept either a `StringAttr` or a `str`.
         """
         if not isinstance(attr, cls):
-            attr = cls.new(attr)
+            attr = cls(attr)
         return attr
 
     @classmethod
